@@ -80,6 +80,8 @@ structure ResInv (orc : Oracle) (inst : Instance) (cfg : SMConfig) (s0 : State) 
   struct : StructInv inst res.state
   sched : ∃ t, SchedInv { res.state with time := t }
   subs : ∀ σ ∈ res.subStates, StructInv inst σ ∧ SchedInv σ
+  dur : DurInv inst res.state
+  subsDur : ∀ σ ∈ res.subStates, DurInv inst σ
   live : res.possible ≠ [] → OccursA orc inst cfg s0 res.state ∧ (∀ tr ∈ res.possible, OfferShaped tr)
   /-- while there are offers, nothing is due -/
   quiet : res.possible ≠ [] → Quiet inst res.state
@@ -87,10 +89,12 @@ structure ResInv (orc : Oracle) (inst : Instance) (cfg : SMConfig) (s0 : State) 
 theorem smStep_resInv {cfg : SMConfig} {s0 s : State} (hst : Start orc inst s0) (h : OccursA orc inst cfg s0 s)
     {a : Action} (ha : Admissible a) {fuel : Nat} {r r' : Rng} {res : SMResult} {mic : List State}
     (hstep : smStep orc inst cfg fuel s r a = .ok (res, r', mic)) :
-    ResInv orc inst cfg s0 res ∧ ∀ σ ∈ mic, StructInv inst σ ∧ SchedInv σ := by
+    ResInv orc inst cfg s0 res ∧ ∀ σ ∈ mic, StructInv inst σ ∧ SchedInv σ ∧ DurInv inst σ := by
   obtain ⟨hI, hS⟩ := final_inv hst h ha hstep
-  refine ⟨⟨hI, hS, fun σ hσ => (occursA_inv hst (OccursA.sub h ha hstep hσ)).2, ?_, ?_⟩,
-    fun σ hσ => (occursA_inv hst (OccursA.micro h ha hstep hσ)).2⟩
+  refine ⟨⟨hI, hS, fun σ hσ => (occursA_inv hst (OccursA.sub h ha hstep hσ)).2, final_dur hst h ha hstep,
+      fun σ hσ => occursA_dur hst (OccursA.sub h ha hstep hσ), ?_, ?_⟩,
+    fun σ hσ => ⟨(occursA_inv hst (OccursA.micro h ha hstep hσ)).2.1, (occursA_inv hst (OccursA.micro h ha hstep hσ)).2.2,
+      occursA_dur hst (OccursA.micro h ha hstep hσ)⟩⟩
   · intro hne
     rcases (smStep_spec hstep).2 with h1 | h1 | h1
     · exact absurd h1.2.2.2 hne
@@ -108,7 +112,7 @@ theorem admissible_noOp : Admissible noOpAction := ⟨fun _ h => by simp [noOpAc
 
 theorem envReset_inv {ec : EnvCfg} {s0 : State} (hst : Start orc inst s0) {r : Rng} {e : EnvState} {mic : List State}
     (h : envReset orc inst ec s0 r = .ok (e, mic)) :
-    ResInv orc inst ec.sm s0 e.res ∧ ∀ σ ∈ mic, StructInv inst σ ∧ SchedInv σ := by
+    ResInv orc inst ec.sm s0 e.res ∧ ∀ σ ∈ mic, StructInv inst σ ∧ SchedInv σ ∧ DurInv inst σ := by
   unfold envReset mwReset at h
   obtain ⟨⟨res, mw, r', mic'⟩, h1, h⟩ := except_bind_eq_ok h
   obtain ⟨⟨res', r'', mic''⟩, h2, h1⟩ := except_bind_eq_ok h1
@@ -120,7 +124,7 @@ theorem envReset_inv {ec : EnvCfg} {s0 : State} (hst : Start orc inst s0) {r : R
 theorem envStep_inv {ec : EnvCfg} {st : RewardStatic} {s0 : State} (hst : Start orc inst s0) {e : EnvState}
     (hi : ResInv orc inst ec.sm s0 e.res) {a : AgentAct} {out : StepOut}
     (h : envStep orc inst ec st e a = .ok out) :
-    ResInv orc inst ec.sm s0 out.env.res ∧ ∀ σ ∈ out.micro, StructInv inst σ ∧ SchedInv σ := by
+    ResInv orc inst ec.sm s0 out.env.res ∧ ∀ σ ∈ out.micro, StructInv inst σ ∧ SchedInv σ ∧ DurInv inst σ := by
   unfold envStep at h
   split at h
   · simp at h
@@ -128,11 +132,12 @@ theorem envStep_inv {ec : EnvCfg} {st : RewardStatic} {s0 : State} (hst : Start 
     simp only at h
     obtain ⟨⟨rew, cnt⟩, _, h⟩ := except_bind_eq_ok h
     simp at h; subst h
-    have key : ResInv orc inst ec.sm s0 res' ∧ ∀ σ ∈ mic, StructInv inst σ ∧ SchedInv σ := by
+    have key : ResInv orc inst ec.sm s0 res' ∧ ∀ σ ∈ mic, StructInv inst σ ∧ SchedInv σ ∧ DurInv inst σ := by
       rcases mwStep_cases hm with ⟨o, o', rest, _, hp, e1, e2, e3, _, _, e6, _⟩ | ⟨act, hsub, hk, hs⟩
       · simp only at e1 e2 e3 e6
         have hl := hi.live (by rw [hp]; simp)
-        refine ⟨⟨by rw [e1]; exact hi.struct, by rw [e1]; exact hi.sched, by rw [e2]; exact hi.subs, ?_, ?_⟩, ?_⟩
+        refine ⟨⟨by rw [e1]; exact hi.struct, by rw [e1]; exact hi.sched, by rw [e2]; exact hi.subs,
+          by rw [e1]; exact hi.dur, by rw [e2]; exact hi.subsDur, ?_, ?_⟩, ?_⟩
         · intro _
           rw [e1, e3]
           exact ⟨hl.1, fun tr htr => hl.2 tr (by rw [hp]; exact List.mem_cons_of_mem _ htr)⟩
@@ -172,7 +177,16 @@ theorem exposed_inv {ec : EnvCfg} {st : RewardStatic} {s0 σ : State} (hst : Sta
   cases h with
   | state he => exact ⟨(envReach_inv hst he).struct, (envReach_inv hst he).sched⟩
   | sub he hσ => have := (envReach_inv hst he).subs σ hσ; exact ⟨this.1, σ.time, this.2⟩
-  | resetMicro hr hσ => have := (envReset_inv hst hr).2 σ hσ; exact ⟨this.1, σ.time, this.2⟩
-  | micro he hs hσ => have := (envStep_inv hst (envReach_inv hst he) hs).2 σ hσ; exact ⟨this.1, σ.time, this.2⟩
+  | resetMicro hr hσ => have := (envReset_inv hst hr).2 σ hσ; exact ⟨this.1, σ.time, this.2.1⟩
+  | micro he hs hσ => have := (envStep_inv hst (envReach_inv hst he) hs).2 σ hσ; exact ⟨this.1, σ.time, this.2.1⟩
+
+/-- every exposed state satisfies the duration invariant -/
+theorem exposed_dur {ec : EnvCfg} {st : RewardStatic} {s0 σ : State} (hst : Start orc inst s0)
+    (h : Exposed orc inst ec st s0 σ) : DurInv inst σ := by
+  cases h with
+  | state he => exact (envReach_inv hst he).dur
+  | sub he hσ => exact (envReach_inv hst he).subsDur σ hσ
+  | resetMicro hr hσ => exact ((envReset_inv hst hr).2 σ hσ).2.2
+  | micro he hs hσ => exact ((envStep_inv hst (envReach_inv hst he) hs).2 σ hσ).2.2
 
 end JSL
